@@ -514,3 +514,1052 @@ def py_context_frame(node, parent, file_path, max_small, allowed1, allowed2):
     r1 = call(CA + "is_acceptable_context", node, parent, file_path, {"max_small_integer": max_small, "allowed_numbers": allowed1})
     r2 = call(CA + "is_acceptable_context", node, parent, file_path, {"max_small_integer": max_small, "allowed_numbers": allowed2})
     return r1 == r2
+
+
+# =================================================================== Python collector (python_analyzer.py)
+import z3 as _z3  # noqa: E402
+
+from pyvc.ex_call import external  # noqa: E402
+from pyvc.ty import VNone as _VNone  # noqa: E402
+
+ParentMapT = Opaque("MNParentMap")  # dict[ast.AST, ast.AST] built by analyzers.ast_utils.build_parent_map
+pm_get = uf("mn_pm_get", [ParentMapT, PyNode], PyNode, concrete=lambda m, n: m.get(n))
+PyAnalyzerT = Rec("PythonMagicNumberAnalyzer", cls=PA + "PythonMagicNumberAnalyzer", numeric_literals=SeqOf(PyLitT),
+                  parent_map=ParentMapT)
+
+
+@external("MNParentMap.get")
+def _parent_map_get(ex, args, kwargs, lineno):
+    """parent_map.get(node): an uninterpreted lookup (dict semantics are trusted)."""
+    f = _z3.Function("uf.mn_pm_get", ParentMapT.sort(), PyNode.sort(), PyNode.sort())
+    ex.ufs_used.add("mn_pm_get")
+    return PyNode.wrap(f(args[0].t, PyNode.pack(args[1])))
+
+
+@external("PythonMagicNumberAnalyzer.generic_visit")
+def _generic_visit_of_constant(ex, args, kwargs, lineno):
+    """ast.NodeVisitor.generic_visit(node) visits the AST children of node. An ast.Constant has none (its fields
+    `value` and `kind` are not nodes), so on a Constant it does nothing. Other node kinds: traversal not modelled."""
+    node = args[1]
+    ex.safety(PyNode.isinstance_term(ex, node, "Constant"), "generic_visit of a non-Constant node (traversal is not modelled)",
+              lineno)
+    return _VNone()
+
+
+def is_numeric_literal_value(v):
+    """PROPERTY: numeric literals are ints and floats; booleans are NOT numeric literals (`True`/`False` are
+    keywords). Floats are not modelled, so over the modelled values: an int that is not a bool."""
+    return isinstance(v, int) and not isinstance(v, bool)
+
+
+@contract(PA + "PythonMagicNumberAnalyzer.visit_Constant", props=["C02"], types=dict(self=PyAnalyzerT, node=PyNode),
+          modifies=["self.numeric_literals"])
+class VisitConstant:
+    def requires(self, node):
+        return isinstance(node, ast.Constant)
+
+    def ensures_collects_exactly_the_numeric_literals(self, node, old):
+        # property text: "nothing that is not a numeric literal (booleans, strings ...) is ever reported".
+        # EXPECTED TO FAIL (known finding C02-python-bool-literal): isinstance(True, int) holds in Python
+        return self.numeric_literals == old.self.numeric_literals + (
+            [(node, pm_get(self.parent_map, node), node.value, node.lineno)] if is_numeric_literal_value(node.value) else [])
+
+    def ensures_collects_exactly_int_valued_constants_adjusted(self, node, old):
+        # finding-adjusted: every Constant whose value is an instance of int (bool included) is recorded exactly once,
+        # with its parent from the parent map, its own value and its own line; nothing else is recorded
+        return self.numeric_literals == old.self.numeric_literals + (
+            [(node, pm_get(self.parent_map, node), node.value, node.lineno)] if isinstance(node.value, int) else [])
+
+
+def py_collected(n):
+    """What visit_Constant records (finding-adjusted: int-valued Constant nodes, bools included)."""
+    return isinstance(n, ast.Constant) and isinstance(n.value, int)
+
+
+def py_lits_of(tree):
+    """One tuple per recorded Constant node of the tree, in visiting order; parent = the node's tree parent."""
+    return [(n, n.parent, n.value, n.lineno) for n in tree.visit_order if py_collected(n)]
+
+
+@contract(PA + "PythonMagicNumberAnalyzer.find_numeric_literals", props=["C02"], types=dict(self=PyAnalyzerT, tree=PyNode),
+          returns=SeqOf(PyLitT), modifies=["self.numeric_literals", "self.parent_map"],
+          assumed="ast.NodeVisitor dispatch and traversal are external (trusted): visit(tree) calls visit_Constant exactly "
+                  "once for every Constant node of the tree, depth first, and build_parent_map maps each node to its "
+                  "tree parent; what visit_Constant records per node is PROVED (visit_Constant contract)")
+class FindNumericLiterals:
+    def requires(self, tree):
+        return tree is not None
+
+    def ensures_each_recorded_constant_exactly_once(self, tree, result):
+        return result == py_lits_of(tree) and all_wf_py(result)
+
+
+@contract(LI + "MagicNumberRule._find_numeric_literals", props=["C02"], types=dict(self=RuleT, tree=PyNode),
+          returns=SeqOf(PyLitT), inline=["__init__"])
+class RuleFindNumericLiterals:
+    def requires(self, tree):
+        return tree is not None
+
+    def ensures_each_recorded_constant_exactly_once(self, tree, result):
+        return result == py_lits_of(tree) and all_wf_py(result)
+
+
+# =================================================================== TypeScript / JavaScript (typescript_analyzer.py)
+TSAnalyzerT = Rec("TypeScriptMagicNumberAnalyzer", cls=TA + "TypeScriptMagicNumberAnalyzer", tree_sitter_available=Bool)
+TSLitT = TupleOf(TSNode, Int, Int)  # (node, value, line)
+
+
+def node_text(n):
+    return "" if n.text is None else n.text.decode()
+
+
+def _ts_code_value(text):
+    """Native mirror of TypeScriptMagicNumberAnalyzer._extract_numeric_value on the literal TEXT (ints only)."""
+    try:
+        if "." not in text and "e" not in text.lower():
+            return int(text, 0)
+        v = float(text)
+        return int(v) if v == int(v) else None
+    except (ValueError, TypeError, OverflowError):
+        return None
+
+
+# value of a JS/TS number literal text as computed by the code (`ts_literal_ok` false: the literal is dropped);
+# checked against the language's value by the bounded stand-in c02-literal-parsing
+ts_literal_ok = uf("c02_ts_literal_ok", [Str], Bool, concrete=lambda t: _ts_code_value(t) is not None)
+ts_literal_int = uf("c02_ts_literal_int", [Str], Int, concrete=lambda t: _ts_code_value(t) or 0)
+
+
+def ts_literal_value(text):
+    return ts_literal_int(text) if ts_literal_ok(text) else None
+
+
+@contract(TA + "TypeScriptMagicNumberAnalyzer._extract_numeric_value", props=["C02"], types=dict(self=TSAnalyzerT, node=TSNode),
+          returns=Opt(Int),
+          assumed="literal text -> value is string parsing (int(text, 0) / float(text)) that the solvers do not decide; "
+                  "checked by exhaustive enumeration of the JS numeric-literal grammar: bounded stand-in "
+                  "c02-literal-parsing. Float-valued literals are outside the integer model")
+class TSExtractNumericValue:
+    def requires(self, node):
+        return node is not None
+
+    def value(self, node):
+        return ts_literal_value(node_text(node))
+
+
+def ts_own(n):
+    """What a single node contributes: a `number` token whose text has a value -> (node, value, row + 1)."""
+    return [(n, ts_literal_int(node_text(n)), n.start_point[0] + 1)] \
+        if n.type == "number" and ts_literal_ok(node_text(n)) else []
+
+
+def all_nodes_present(lits):
+    """Every collected tuple carries a real (non-null) node."""
+    return all(lit[0] is not None for lit in lits)
+
+
+@lemma(props=["C02"], types=dict(a=SeqOf(TSLitT), x=TSLitT), name="all-nodes-present-append")
+def all_present_append(a, x):
+    """all_nodes_present(a + [x]) == all_nodes_present(a) and x's node is present (induction on a)."""
+    if len(a) == 0:
+        return all_nodes_present(a + [x]) == (x[0] is not None)
+    ih(all_present_append, a[1:], x)
+    return all_nodes_present(a + [x]) == (all_nodes_present(a) and x[0] is not None)
+
+
+def ts_walk(n: TSNode, acc: SeqOf(TSLitT)) -> SeqOf(TSLitT):
+    """acc followed by the literals of the subtree of n in pre-order: every node of the subtree contributes
+    ts_own exactly once (node first, then its children left to right)."""
+    return ts_walk_seq(n.children, acc + ts_own(n))
+
+
+def ts_walk_seq(s: SeqOf(TSNode), acc: SeqOf(TSLitT)) -> SeqOf(TSLitT):
+    if len(s) == 0:
+        return acc
+    return ts_walk_seq(s[1:], ts_walk(s[0], acc))
+
+
+@contract(TA + "TypeScriptMagicNumberAnalyzer._collect_numeric_literals", props=["C02"],
+          types=dict(self=TSAnalyzerT, node=TSNode, literals=SeqOf(TSLitT), value=Opt(Int), line_number=Int, child=TSNode),
+          modifies=["literals"])
+class TSCollectNumericLiterals:
+    def requires(self, node, literals):
+        return node is not None and all_nodes_present(literals)
+
+    def ensures_each_number_node_of_the_subtree_once_with_line_row_plus_1(self, node, literals, old):
+        return literals == ts_walk(node, old.literals)
+
+    def ensures_only_real_nodes(self, node, literals):
+        return all_nodes_present(literals)
+
+    def lemmas_inv0(self, node, old):
+        return all_present_append(old.literals, (node, ts_literal_int(node_text(node)), node.start_point[0] + 1))
+
+    def inv0(self, node, literals, rest, old):
+        return self == old.self and all_nodes_present(literals) and \
+            ts_walk(node, old.literals) == ts_walk_seq(rest, literals)
+
+
+@contract(TA + "TypeScriptMagicNumberAnalyzer.find_numeric_literals", props=["C02"],
+          types=dict(self=TSAnalyzerT, root_node=TSNode), returns=SeqOf(TSLitT))
+class TSFindNumericLiterals:
+    def ensures_all_literals_of_the_tree(self, root_node, result):
+        return implies(root_node is not None, result == ts_walk(root_node, []))
+
+    def ensures_only_real_nodes(self, root_node, result):
+        return all_nodes_present(result)
+
+    def ensures_no_tree_no_literals(self, root_node, result):
+        return implies(root_node is None, result == [])
+
+
+# ------------------------------------------------------------------ TS exempt contexts
+def up_has_type(n: TSNode, k: Str) -> Bool:
+    """n or one of its ancestors has node type k."""
+    return n is not None and (n.type == k or up_has_type(n.parent, k))
+
+
+@contract(TA + "TypeScriptMagicNumberAnalyzer.is_enum_context", props=["C02"], types=dict(self=TSAnalyzerT, node=TSNode),
+          returns=Bool)
+class TSIsEnumContext:
+    def requires(self, node):
+        return node is not None
+
+    def ensures_inside_an_enum_declaration(self, node, result):
+        # docs: "Enum values: enum Status { ACTIVE = 1 }" -- some proper ancestor is an enum_declaration
+        return result == up_has_type(node.parent, "enum_declaration")
+
+    def inv0(self, node, current):
+        return up_has_type(node.parent, "enum_declaration") == up_has_type(current, "enum_declaration")
+
+    def var0(current):
+        return ts_depth(current)
+
+
+DECL_TYPES = ("variable_declarator", "lexical_declaration", "pair")
+
+
+def is_decl(n):
+    return n is not None and n.type in DECL_TYPES
+
+
+def decl_parent(node):
+    """The declaration the literal is the (possibly once-nested) value of: parent, else grandparent."""
+    if is_decl(node.parent):
+        return node.parent
+    if node.parent is not None and is_decl(node.parent.parent):
+        return node.parent.parent
+    return None
+
+
+@contract(TA + "TypeScriptMagicNumberAnalyzer._is_declaration_type", props=["C02"], types=dict(self=TSAnalyzerT, node=TSNode),
+          returns=Bool)
+class TSIsDeclarationType:
+    def value(self, node):
+        return is_decl(node)
+
+
+@contract(TA + "TypeScriptMagicNumberAnalyzer._find_declaration_parent", props=["C02"],
+          types=dict(self=TSAnalyzerT, node=TSNode), returns=TSNode)
+class TSFindDeclarationParent:
+    def requires(self, node):
+        return node is not None
+
+    def value(self, node):
+        return decl_parent(node)
+
+
+def first_ident(n: TSNode) -> TSNode:
+    """First identifier / property_identifier strictly below n in pre-order (None if there is none)."""
+    return first_ident_seq(n.children)
+
+
+def first_ident_seq(s: SeqOf(TSNode)) -> TSNode:
+    if len(s) == 0:
+        return None
+    if s[0].type in ("identifier", "property_identifier"):
+        return s[0]
+    if first_ident(s[0]) is not None:
+        return first_ident(s[0])
+    return first_ident_seq(s[1:])
+
+
+@contract(TA + "TypeScriptMagicNumberAnalyzer._find_identifier_in_declaration", props=["C02"],
+          types=dict(self=TSAnalyzerT, node=TSNode, child=TSNode, result=TSNode), returns=TSNode)
+class TSFindIdentifierInDeclaration:
+    def requires(self, node):
+        return node is not None
+
+    def value(self, node):
+        return first_ident(node)
+
+    def inv0(self, node, rest, old):
+        return self == old.self and first_ident(node) == first_ident_seq(rest)
+
+
+def _upper_const(name):
+    letters = "".join(c for c in name if c.isalpha())
+    return bool(letters) and letters.isupper()
+
+
+# "UPPERCASE constant": at least one letter and every letter upper case (digits / underscores allowed)
+ts_upper_name = uf("c02_ts_upper_name", [Str], Bool, concrete=_upper_const)
+
+
+def upper_const(name):
+    return len(name) > 0 and ts_upper_name(name)
+
+
+@contract(TA + "TypeScriptMagicNumberAnalyzer._is_uppercase_constant", props=["C02"], types=dict(self=TSAnalyzerT, name=Str),
+          returns=Bool,
+          assumed="character-level filtering of the identifier (''.join(c for c in name if c.isalpha()).isupper()): string "
+                  "iteration is outside the solver-decided subset; checked by the bounded stand-in c02-literal-parsing "
+                  "(identifier enumeration)")
+class TSIsUppercaseConstant:
+    def value(self, name):
+        return upper_const(name)
+
+
+@opaque
+def ts_constant_definition(node: TSNode) -> Bool:
+    """docs: `const MAX_SIZE = 100` (UPPERCASE): the literal's declaration (parent or grandparent declarator /
+    lexical declaration / object pair) names an UPPERCASE identifier first."""
+    return decl_parent(node) is not None and first_ident(decl_parent(node)) is not None \
+        and upper_const(node_text(first_ident(decl_parent(node))))
+
+
+@contract(TA + "TypeScriptMagicNumberAnalyzer._has_uppercase_identifier", props=["C02"],
+          types=dict(self=TSAnalyzerT, parent_node=TSNode), returns=Bool, inline=["extract_node_text"])
+class TSHasUppercaseIdentifier:
+    def requires(self, parent_node):
+        return parent_node is not None
+
+    def value(self, parent_node):
+        return first_ident(parent_node) is not None and upper_const(node_text(first_ident(parent_node)))
+
+
+@contract(TA + "TypeScriptMagicNumberAnalyzer.is_constant_definition", props=["C02"],
+          types=dict(self=TSAnalyzerT, node=TSNode, source_code=Str), returns=Bool)
+class TSIsConstantDefinition:
+    def requires(self, node, source_code):
+        return node is not None
+
+    def reveals(self, node, source_code):
+        return reveal(ts_constant_definition, node)
+
+    def ensures_uppercase_constant_definition(self, node, source_code, result):
+        return result == ts_constant_definition(node)
+
+
+# =================================================================== Rust (rust_analyzer.py)
+RustAnalyzerT = Rec("RustMagicNumberAnalyzer", cls=RA + "RustMagicNumberAnalyzer", tree_sitter_available=Bool)
+RUST_SUFFIXES = ("u8", "u16", "u32", "u64", "u128", "usize", "i8", "i16", "i32", "i64", "i128", "isize", "f32", "f64")
+RUST_LITERAL_TYPES = ("integer_literal", "float_literal")
+
+
+@contract(RA + "RustMagicNumberAnalyzer._strip_type_suffix", props=["C02"], types=dict(self=RustAnalyzerT, text=Str),
+          returns=Str)
+class RustStripTypeSuffix:
+    def ensures_cuts_one_trailing_type_suffix(self, text, result):
+        # code-level shape (whether the cut characters really ARE a type suffix of the literal -- `0x1f32` -- is
+        # checked against the language by the bounded stand-in c02-literal-parsing)
+        return (any(text.endswith(s) for s in RUST_SUFFIXES) or result == text) and \
+            (result == text or any(text == result + s for s in RUST_SUFFIXES))
+
+
+def _rust_code_value(kind, text):
+    """Native mirror of RustMagicNumberAnalyzer._extract_numeric_value on (node type, literal text), ints only."""
+    cleaned = text
+    for s in RUST_SUFFIXES:
+        if cleaned.endswith(s):
+            cleaned = cleaned[: -len(s)]
+            break
+    cleaned = cleaned.replace("_", "")
+    try:
+        if kind == "float_literal":
+            v = float(cleaned)
+            return int(v) if v == int(v) else None
+        return int(cleaned, 0)
+    except (ValueError, TypeError, OverflowError):
+        return None
+
+
+rust_literal_ok = uf("c02_rust_literal_ok", [Str, Str], Bool, concrete=lambda k, t: _rust_code_value(k, t) is not None)
+rust_literal_int = uf("c02_rust_literal_int", [Str, Str], Int, concrete=lambda k, t: _rust_code_value(k, t) or 0)
+
+
+def rust_literal_value(kind, text):
+    return rust_literal_int(kind, text) if rust_literal_ok(kind, text) else None
+
+
+@contract(RA + "RustMagicNumberAnalyzer._extract_numeric_value", props=["C02"], types=dict(self=RustAnalyzerT, node=TSNode),
+          returns=Opt(Int),
+          assumed="literal text -> value is string parsing (suffix stripping, underscore removal, int(text, 0) / float) "
+                  "that the solvers do not decide; checked by exhaustive enumeration of the Rust literal grammar: bounded "
+                  "stand-in c02-literal-parsing. Float-valued literals are outside the integer model")
+class RustExtractNumericValue:
+    def requires(self, node):
+        return node is not None
+
+    def value(self, node):
+        return rust_literal_value(node.type, node_text(node))
+
+
+def rust_own(n):
+    return [(n, rust_literal_int(n.type, node_text(n)), n.start_point[0] + 1)] \
+        if n.type in RUST_LITERAL_TYPES and rust_literal_ok(n.type, node_text(n)) else []
+
+
+def rust_walk(n: TSNode, acc: SeqOf(TSLitT)) -> SeqOf(TSLitT):
+    """acc followed by the literals of the subtree of n in pre-order (each literal node exactly once)."""
+    return rust_walk_seq(n.children, acc + rust_own(n))
+
+
+def rust_walk_seq(s: SeqOf(TSNode), acc: SeqOf(TSLitT)) -> SeqOf(TSLitT):
+    if len(s) == 0:
+        return acc
+    return rust_walk_seq(s[1:], rust_walk(s[0], acc))
+
+
+@contract(RA + "RustMagicNumberAnalyzer._collect_numeric_literals", props=["C02"],
+          types=dict(self=RustAnalyzerT, node=TSNode, literals=SeqOf(TSLitT), value=Opt(Int), line_number=Int, child=TSNode),
+          modifies=["literals"])
+class RustCollectNumericLiterals:
+    def requires(self, node, literals):
+        return node is not None and all_nodes_present(literals)
+
+    def ensures_each_literal_node_of_the_subtree_once_with_line_row_plus_1(self, node, literals, old):
+        return literals == rust_walk(node, old.literals)
+
+    def ensures_only_real_nodes(self, node, literals):
+        return all_nodes_present(literals)
+
+    def lemmas_inv0(self, node, old):
+        return all_present_append(old.literals, (node, rust_literal_int(node.type, node_text(node)), node.start_point[0] + 1))
+
+    def inv0(self, node, literals, rest, old):
+        return self == old.self and all_nodes_present(literals) and \
+            rust_walk(node, old.literals) == rust_walk_seq(rest, literals)
+
+
+@contract(RA + "RustMagicNumberAnalyzer.find_numeric_literals", props=["C02"],
+          types=dict(self=RustAnalyzerT, root_node=TSNode), returns=SeqOf(TSLitT))
+class RustFindNumericLiterals:
+    def ensures_all_literals_of_the_tree(self, root_node, result):
+        return implies(root_node is not None, result == rust_walk(root_node, []))
+
+    def ensures_only_real_nodes(self, root_node, result):
+        return all_nodes_present(result)
+
+    def ensures_no_tree_no_literals(self, root_node, result):
+        return implies(root_node is None, result == [])
+
+
+def in_const_or_static(n: TSNode) -> Bool:
+    """n or one of its ancestors is a const_item / static_item."""
+    return n is not None and (n.type in ("const_item", "static_item") or in_const_or_static(n.parent))
+
+
+@contract(RA + "RustMagicNumberAnalyzer.is_constant_definition", props=["C02"], types=dict(self=RustAnalyzerT, node=TSNode),
+          returns=Bool)
+class RustIsConstantDefinition:
+    def requires(self, node):
+        return node is not None
+
+    def ensures_inside_const_or_static_item(self, node, result):
+        # docs: "Constant definitions: const MAX_SIZE: usize = 100; Static items: static TIMEOUT: u64 = 3600"
+        return result == in_const_or_static(node.parent)
+
+    def inv0(self, node, current):
+        return in_const_or_static(node.parent) == in_const_or_static(current)
+
+    def var0(current):
+        return ts_depth(current)
+
+
+# test code (#[test] functions, #[cfg(test)] modules): src/analyzers/rust_context.is_inside_test, shared by the Rust
+# linters; its contracts, spec (inside_test_from) and known findings live under C17 (contracts/c17_rust_context.py)
+from contracts.c17_rust_context import inside_test_from  # noqa: E402
+
+
+def rust_in_test(node):
+    return inside_test_from(node)
+
+
+@contract(RA + "RustMagicNumberAnalyzer.is_test_context", props=["C02"], types=dict(self=RustAnalyzerT, node=TSNode),
+          returns=Bool)
+class RustIsTestContext:
+    def value(self, node):
+        return rust_in_test(node)
+
+
+# =================================================================== the rule (linter.py): TypeScript / Rust paths
+TS_TEST_MARKERS = (".test.", ".spec.", "test_", "_test.", "/tests/", "/test/")
+
+
+def obj_str(file_path):
+    """str(file_path) for an Optional path (str(None) == 'None')."""
+    return path_str(file_path) if file_path is not None else "None"
+
+
+def ts_test_file(file_path):
+    """docs: test files `*.test.ts`, `*.spec.ts`, ... (code: any of six markers anywhere in the path string)."""
+    return any(m in obj_str(file_path) for m in TS_TEST_MARKERS)
+
+
+@contract(LI + "MagicNumberRule._is_test_file", props=["C02"], types=dict(self=RuleT, file_path=OptPath), returns=Bool)
+class RuleIsTestFile:
+    def value(self, file_path):
+        return ts_test_file(file_path)
+
+
+def ts_exempt(node, file_path):
+    """The documented exempt positions of a TS/JS literal (independent of allowed_numbers)."""
+    return ts_test_file(file_path) or up_has_type(node.parent, "enum_declaration") or ts_constant_definition(node)
+
+
+def ts_flag(value, node, file_path, allowed):
+    """TOP-LEVEL SPEC (TS/JS): flagged  <=>  value not allowed  and  not in a documented exempt position."""
+    return (value not in allowed) and not ts_exempt(node, file_path)
+
+
+@contract(LI + "MagicNumberRule._is_typescript_allowed_context", props=["C02"],
+          types=dict(self=RuleT, value=Int, context=CtxT, config=ConfigT), returns=Bool)
+class IsTypescriptAllowedContext:
+    def value(self, value, context, config):
+        return value in config.allowed_numbers or ts_test_file(context.file_path)
+
+
+@contract(LI + "MagicNumberRule._is_typescript_special_context", props=["C02"],
+          types=dict(self=RuleT, node=TSNode, analyzer=TSAnalyzerT, context=CtxT), returns=Bool)
+class IsTypescriptSpecialContext:
+    def requires(self, node, analyzer, context):
+        return node is not None
+
+    def value(self, node, analyzer, context):
+        return up_has_type(node.parent, "enum_declaration") or ts_constant_definition(node)
+
+
+@contract(LI + "MagicNumberRule._should_flag_typescript_number", props=["C02"],
+          types=dict(self=RuleT, node=TSNode, value=Int, context=CtxT, config=ConfigT, analyzer=TSAnalyzerT), returns=Bool)
+class ShouldFlagTypescriptNumber:
+    def requires(self, node, value, context, config, analyzer):
+        return node is not None
+
+    def ensures_flag_iff_not_allowed_and_not_exempt(self, node, value, context, config, analyzer, result):
+        return result == ts_flag(value, node, context.file_path, config.allowed_numbers)
+
+
+@contract(LI + "MagicNumberRule._should_ignore_typescript", props=["C02"],
+          types=dict(self=RuleT, violation=ViolationT, context=CtxT), returns=Bool,
+          assumed="inline suppression directives (// thailint: ignore, // noqa): subject of property C04; for C02 an "
+                  "uninterpreted predicate of (rule id, line, file content)")
+class ShouldIgnoreTypescript:
+    def value(self, violation, context):
+        return ts_inline_ignored(violation.rule_id, violation.line, context.file_content)
+
+
+@opaque
+def ts_reported(lit: TSLitT, file_path: OptPath, content: Opt(Str), allowed: SeqOf(Int)) -> Bool:
+    return ts_flag(lit[1], lit[0], file_path, allowed) and not ts_inline_ignored(RULE_ID, lit[2], content)
+
+
+@opaque
+def ts_violation(lit: TSLitT, file_path: OptPath) -> ViolationT:
+    return magic_violation(RULE_ID, file_path, lit[2], 0, lit[1], ts_suggestion(lit[1]))
+
+
+@contract(LI + "MagicNumberRule._try_create_typescript_violation", props=["C02"],
+          types=dict(self=RuleT, node=TSNode, value=Int, line_number=Int, context=CtxT, config=ConfigT, analyzer=TSAnalyzerT),
+          returns=Opt(ViolationT))
+class TryCreateTypescriptViolation:
+    def requires(self, node, value, line_number, context, config, analyzer):
+        return wf_rule(self) and node is not None
+
+    def reveals(self, node, value, line_number, context, config, analyzer):
+        return (reveal(ts_violation, (node, value, line_number), context.file_path)
+                and reveal(ts_reported, (node, value, line_number), context.file_path, context.file_content,
+                           config.allowed_numbers))
+
+    def ensures_reported_iff_flagged_and_not_suppressed(self, node, value, line_number, context, config, analyzer, result):
+        return (result is not None) == ts_reported((node, value, line_number), context.file_path, context.file_content,
+                                                   config.allowed_numbers)
+
+    def ensures_violation_on_the_literals_line_naming_its_value(self, node, value, line_number, context, config, analyzer,
+                                                                result):
+        return implies(result is not None, result == ts_violation((node, value, line_number), context.file_path)
+                       and result.line == line_number and result.message == magic_message(value)
+                       and result.rule_id == RULE_ID)
+
+
+def collect_ts(lits: SeqOf(TSLitT), acc: SeqOf(ViolationT), file_path: OptPath, content: Opt(Str),
+               allowed: SeqOf(Int)) -> SeqOf(ViolationT):
+    """acc followed by one violation per reported literal, in collection order."""
+    if len(lits) == 0:
+        return acc
+    if ts_reported(lits[0], file_path, content, allowed):
+        return collect_ts(lits[1:], acc + [ts_violation(lits[0], file_path)], file_path, content, allowed)
+    return collect_ts(lits[1:], acc, file_path, content, allowed)
+
+
+@contract(LI + "MagicNumberRule._collect_typescript_violations", props=["C02"],
+          types=dict(self=RuleT, numeric_literals=SeqOf(TSLitT), context=CtxT, config=ConfigT, analyzer=TSAnalyzerT,
+                     violations=SeqOf(ViolationT), violation=Opt(ViolationT), node=TSNode, value=Int, line_number=Int),
+          returns=SeqOf(ViolationT))
+class CollectTypescriptViolations:
+    def requires(self, numeric_literals, context, config, analyzer):
+        return wf_rule(self) and all_nodes_present(numeric_literals)
+
+    def ensures_one_violation_per_reported_literal(self, numeric_literals, context, config, analyzer, result):
+        return result == collect_ts(numeric_literals, [], context.file_path, context.file_content, config.allowed_numbers)
+
+    def inv0(self, numeric_literals, context, config, analyzer, violations, rest, old):
+        return self == old.self and context == old.context and config == old.config and analyzer == old.analyzer \
+            and all_nodes_present(rest) and \
+            collect_ts(numeric_literals, [], context.file_path, context.file_content, config.allowed_numbers) == \
+            collect_ts(rest, violations, context.file_path, context.file_content, config.allowed_numbers)
+
+
+def rust_exempt(node):
+    """The documented exempt positions of a Rust literal (independent of allowed_numbers)."""
+    return in_const_or_static(node.parent) or rust_in_test(node)
+
+
+def rust_flag(value, node, allowed):
+    """TOP-LEVEL SPEC (Rust): flagged  <=>  value not allowed  and  not in a documented exempt position."""
+    return (value not in allowed) and not rust_exempt(node)
+
+
+@opaque
+def rust_reported(lit: TSLitT, content: Opt(Str), allowed: SeqOf(Int)) -> Bool:
+    return rust_flag(lit[1], lit[0], allowed) and not inline_ignored(RULE_ID, lit[2], content)
+
+
+@opaque
+def rust_violation(lit: TSLitT, file_path: OptPath) -> ViolationT:
+    return magic_violation(RULE_ID, file_path, lit[2], 0, lit[1], rust_suggestion(lit[1]))
+
+
+@contract(LI + "MagicNumberRule._try_create_rust_violation", props=["C02"],
+          types=dict(self=RuleT, node=TSNode, value=Int, line_number=Int, context=CtxT, config=ConfigT,
+                     analyzer=RustAnalyzerT), returns=Opt(ViolationT))
+class TryCreateRustViolation:
+    def requires(self, node, value, line_number, context, config, analyzer):
+        return wf_rule(self) and node is not None
+
+    def reveals(self, node, value, line_number, context, config, analyzer):
+        return (reveal(rust_violation, (node, value, line_number), context.file_path)
+                and reveal(rust_reported, (node, value, line_number), context.file_content, config.allowed_numbers))
+
+    def ensures_reported_iff_flagged_and_not_suppressed(self, node, value, line_number, context, config, analyzer, result):
+        return (result is not None) == rust_reported((node, value, line_number), context.file_content, config.allowed_numbers)
+
+    def ensures_flag_iff_not_allowed_and_not_exempt(self, node, value, line_number, context, config, analyzer, result):
+        return (result is not None) == (rust_flag(value, node, config.allowed_numbers)
+                                        and not inline_ignored(RULE_ID, line_number, context.file_content))
+
+    def ensures_violation_on_the_literals_line_naming_its_value(self, node, value, line_number, context, config, analyzer,
+                                                                result):
+        return implies(result is not None, result == rust_violation((node, value, line_number), context.file_path)
+                       and result.line == line_number and result.message == magic_message(value)
+                       and result.rule_id == RULE_ID)
+
+
+def collect_rust(lits: SeqOf(TSLitT), acc: SeqOf(ViolationT), file_path: OptPath, content: Opt(Str),
+                 allowed: SeqOf(Int)) -> SeqOf(ViolationT):
+    """acc followed by one violation per reported literal, in collection order."""
+    if len(lits) == 0:
+        return acc
+    if rust_reported(lits[0], content, allowed):
+        return collect_rust(lits[1:], acc + [rust_violation(lits[0], file_path)], file_path, content, allowed)
+    return collect_rust(lits[1:], acc, file_path, content, allowed)
+
+
+@contract(LI + "MagicNumberRule._collect_rust_violations", props=["C02"],
+          types=dict(self=RuleT, numeric_literals=SeqOf(TSLitT), context=CtxT, config=ConfigT, analyzer=RustAnalyzerT,
+                     violations=SeqOf(ViolationT), violation=Opt(ViolationT), node=TSNode, value=Int, line_number=Int),
+          returns=SeqOf(ViolationT))
+class CollectRustViolations:
+    def requires(self, numeric_literals, context, config, analyzer):
+        return wf_rule(self) and all_nodes_present(numeric_literals)
+
+    def ensures_one_violation_per_reported_literal(self, numeric_literals, context, config, analyzer, result):
+        return result == collect_rust(numeric_literals, [], context.file_path, context.file_content, config.allowed_numbers)
+
+    def inv0(self, numeric_literals, context, config, analyzer, violations, rest, old):
+        return self == old.self and context == old.context and config == old.config and analyzer == old.analyzer \
+            and all_nodes_present(rest) and \
+            collect_rust(numeric_literals, [], context.file_path, context.file_content, config.allowed_numbers) == \
+            collect_rust(rest, violations, context.file_path, context.file_content, config.allowed_numbers)
+
+
+# ------------------------------------------------------------------ delta lemmas (TS, Rust)
+@lemma(props=["C02"], types=dict(rule=RuleT, node=TSNode, value=Int, context=CtxT, config=ConfigT, analyzer=TSAnalyzerT, a=Int),
+       name="typescript-allowed-numbers-delta")
+def ts_allowed_delta(rule, node, value, context, config, analyzer, a):
+    """flag(A + {a}) == flag(A) and value != a, over the contract of _should_flag_typescript_number."""
+    if node is None:
+        return True
+    f0 = call(LI + "MagicNumberRule._should_flag_typescript_number", rule, node, value, context, config, analyzer)
+    f1 = call(LI + "MagicNumberRule._should_flag_typescript_number", rule, node, value, context,
+              with_allowed(config, config.allowed_numbers + [a]), analyzer)
+    return f1 == (f0 and value != a)
+
+
+@lemma(props=["C02"], types=dict(rule=RuleT, node=TSNode, value=Int, line=Int, context=CtxT, config=ConfigT,
+                                 analyzer=RustAnalyzerT, a=Int),
+       name="rust-allowed-numbers-delta")
+def rust_allowed_delta(rule, node, value, line, context, config, analyzer, a):
+    """reported(A + {a}) == reported(A) and value != a, over the contract of _try_create_rust_violation."""
+    if node is None or rule._violation_builder.rule_id != RULE_ID:
+        return True
+    v0 = call(LI + "MagicNumberRule._try_create_rust_violation", rule, node, value, line, context, config, analyzer)
+    v1 = call(LI + "MagicNumberRule._try_create_rust_violation", rule, node, value, line, context,
+              with_allowed(config, config.allowed_numbers + [a]), analyzer)
+    return (v1 is not None) == (v0 is not None and value != a)
+
+
+# =================================================================== per-language entry points (linter.py)
+# file-level filters: the `ignore` glob list (path handling: property C09) and the definition-module heuristic
+file_ignored = uf("c02_file_ignored", [OptPath, SeqOf(Str)], Bool)
+definition_file = uf("c02_definition_file", [OptPath, Opt(Str)], Bool)
+py_tree = uf("c02_py_tree", [Opt(Str)], PyNode)  # ast.parse(code or "") -- None on SyntaxError (parser trusted)
+
+
+@contract(LI + "MagicNumberRule._is_file_ignored", props=["C02"], types=dict(self=RuleT, context=CtxT, config=ConfigT),
+          returns=Bool,
+          assumed="glob matching of the file path against config.ignore (pathlib.Path.match is external; ignore-pattern "
+                  "path handling is property C09's subject): an uninterpreted predicate of (path, patterns)")
+class IsFileIgnored:
+    def value(self, context, config):
+        return file_ignored(context.file_path, config.ignore)
+
+
+@contract(LI.replace("linter.py", "definition_detector.py") + "is_definition_file", props=["C02"],
+          types=dict(file_path=OptPath, content=Opt(Str)), returns=Bool,
+          assumed="heuristic recognition of a constants-definition module (file-name patterns plus regex counting over the "
+                  "content): an uninterpreted predicate of (path, content); the property only needs that such a file yields "
+                  "no violations when exempt_definition_files is on")
+class IsDefinitionFile:
+    def value(file_path, content):
+        return definition_file(file_path, content)
+
+
+@contract(LI + "MagicNumberRule._parse_python_code", props=["C02"], types=dict(self=RuleT, code=Opt(Str)), returns=PyNode,
+          assumed="CPython parser (ast.parse, external, trusted): the tree is a function of the source text, None on a "
+                  "SyntaxError")
+class ParsePythonCode:
+    def value(self, code):
+        return py_tree(code)
+
+
+def py_file_exempt(context, config):
+    """File-level exemptions: ignored by pattern, or a constants-definition module (when enabled)."""
+    return file_ignored(context.file_path, config.ignore) or \
+        (config.exempt_definition_files and definition_file(context.file_path, context.file_content))
+
+
+@contract(LI + "MagicNumberRule._check_python", props=["C02"], types=dict(self=RuleT, context=CtxT, config=ConfigT),
+          returns=SeqOf(ViolationT))
+class CheckPython:
+    def requires(self, context, config):
+        return wf_rule(self)
+
+    def ensures_exempt_file_or_unparsable_no_violations(self, context, config, result):
+        return implies(py_file_exempt(context, config) or py_tree(context.file_content) is None, result == [])
+
+    def ensures_one_violation_per_reported_literal_of_the_file(self, context, config, result):
+        return implies(not py_file_exempt(context, config) and py_tree(context.file_content) is not None,
+                       result == collect_py(py_lits_of(py_tree(context.file_content)), [], context.file_path,
+                                            context.file_content, config.allowed_numbers, config.max_small_integer))
+
+
+# =================================================================== BOUNDED stand-in: literal text -> value
+# The two _extract_numeric_value functions (and _is_uppercase_constant) are string parsing the solvers do not decide.
+# Their contracts above are `assumed`; this check replaces the proof by EXHAUSTIVE ENUMERATION of each language's
+# numeric-literal grammar up to a stated length (over a reduced digit alphabet), calling the REAL functions of
+# $VERIF_REPO and comparing with a reference evaluator written from the language rules. It is labelled bounded.
+DEC = "01789"
+NZ = "1789"
+HEXD = "01234689abcdefABCDEF"
+OCTD = "017"
+BIND = "01"
+RUST_INT_SUFFIXES = ("u8", "u16", "u32", "u64", "u128", "usize", "i8", "i16", "i32", "i64", "i128", "isize")
+RUST_FLOAT_SUFFIXES = ("f32", "f64")
+
+
+def _sep_digits(digits, maxlen, sep_single=True):
+    """d (_? d)*  (JS: single separators between digits) / with sep_single False: d (d|_)* (Rust)."""
+    out, frontier = [], [d for d in digits] if maxlen >= 1 else []
+    while frontier:
+        out.extend(frontier)
+        nxt = []
+        for s in frontier:
+            for d in digits:
+                if len(s) + 1 <= maxlen:
+                    nxt.append(s + d)
+                if sep_single and len(s) + 2 <= maxlen:
+                    nxt.append(s + "_" + d)
+            if not sep_single and len(s) + 1 <= maxlen:
+                nxt.append(s + "_")
+        frontier = nxt
+    return out
+
+
+def _rust_digits(digits, maxlen):
+    """(d|_)* d (d|_)*: at least one digit, underscores anywhere."""
+    import itertools
+    out = []
+    for n in range(1, maxlen + 1):
+        for t in itertools.product(digits + "_", repeat=n):
+            s = "".join(t)
+            if any(c != "_" for c in s):
+                out.append(s)
+    return out
+
+
+def js_literals(maxlen):
+    """(grammar class, text, reference value) for every ECMAScript NumericLiteral up to maxlen characters (ES2023
+    12.9.3 incl. numeric separators and BigInt; Annex B legacy octal-like forms as their own class)."""
+    out = []
+    dd = _sep_digits(DEC, maxlen)
+    dec_int = ["0"] + [s for s in dd if s[0] in NZ]
+    for s in dec_int:
+        out.append(("decimal-integer", s, int(s.replace("_", ""))))
+        if len(s) + 1 <= maxlen:
+            out.append(("bigint", s + "n", int(s.replace("_", ""))))
+    for pfx, digs, base, cls in (("0x", HEXD, 16, "hex-integer"), ("0X", HEXD, 16, "hex-integer"),
+                                 ("0o", OCTD, 8, "octal-binary-integer"), ("0O", OCTD, 8, "octal-binary-integer"),
+                                 ("0b", BIND, 2, "octal-binary-integer"), ("0B", BIND, 2, "octal-binary-integer")):
+        for s in _sep_digits(digs, maxlen - 2):
+            v = int(s.replace("_", ""), base)
+            out.append((cls, pfx + s, v))
+            if len(s) + 3 <= maxlen:
+                out.append(("bigint", pfx + s + "n", v))
+    exps = [""] + [e + sg + d for e in "eE" for sg in ("", "+", "-") for d in _sep_digits(DEC, maxlen - 2)
+                   if len(e + sg + d) <= maxlen - 1]
+    fracs = [""] + dd
+
+    def bucket(xs):
+        b = {}
+        for x in xs:
+            b.setdefault(len(x), []).append(x)
+        return b
+    bi, bf, be = bucket(dec_int), bucket(fracs), bucket(exps)
+
+    def combos(first, dot, second, third):
+        for l1, xs in first.items():
+            for l2, ys in second.items():
+                for l3, zs in third.items():
+                    if l1 + len(dot) + l2 + l3 <= maxlen:
+                        for x in xs:
+                            for y in ys:
+                                for z in zs:
+                                    yield x + dot + y + z
+    for t in combos(bi, ".", bf, be):                         # DecimalIntegerLiteral . DecimalDigits? ExponentPart?
+        out.append(("decimal-fraction-exponent", t, float(t.replace("_", ""))))
+    for t in combos(bi, "", {0: [""]}, bucket(exps[1:])):     # DecimalIntegerLiteral ExponentPart
+        out.append(("decimal-fraction-exponent", t, float(t.replace("_", ""))))
+    for t in combos({0: [""]}, ".", bucket(dd), be):          # . DecimalDigits ExponentPart?
+        out.append(("decimal-fraction-exponent", t, float(t.replace("_", ""))))
+    import itertools
+    for n in range(1, maxlen):
+        for t in itertools.product(DEC, repeat=n):
+            s = "0" + "".join(t)
+            # Annex B.1.1: 0[0-7]+ is octal; with an 8 or 9 it is decimal (sloppy-mode JavaScript only)
+            out.append(("legacy-octal", s, int(s, 8) if all(c in "01234567" for c in s) else int(s)))
+    return out
+
+
+def rust_literals(maxlen):
+    """(grammar class, node type, text, reference value) for every Rust numeric literal token up to maxlen characters
+    (Rust Reference, tokens: integer / floating-point literals; node types as tree-sitter-rust assigns them)."""
+    out = []
+    # decimal: every body up to maxlen without suffix, bodies up to 3 characters with each of the 14 suffixes
+    for s in _sep_digits(DEC, maxlen, sep_single=False):
+        v = int(s.replace("_", ""))
+        out.append(("decimal-integer", "integer_literal", s, v))
+        if len(s) <= 3:
+            for suf in RUST_INT_SUFFIXES + RUST_FLOAT_SUFFIXES:
+                out.append(("decimal-integer", "integer_literal", s + suf, v))
+    # hex: bodies up to maxlen-1 (>= 4) characters, no suffix or one of a few integer suffixes (f32/f64 are NOT
+    # suffixes after a hex literal: `0x1f32` is the number 0x1f32); octal / binary: bodies up to 4, every int suffix
+    for pfx, digs, base, cls, blen, sufs in (("0x", HEXD, 16, "hex-integer", max(4, maxlen - 1), ("", "u8", "i64", "usize")),
+                                             ("0o", OCTD, 8, "octal-binary-integer", 4, ("",) + RUST_INT_SUFFIXES),
+                                             ("0b", BIND, 2, "octal-binary-integer", 4, ("",) + RUST_INT_SUFFIXES)):
+        for s in _rust_digits(digs, blen):
+            v = int(s.replace("_", ""), base)
+            for suf in sufs:
+                out.append((cls, "integer_literal", pfx + s + suf, v))
+    decs = _sep_digits(DEC, 3, sep_single=False)
+    exps = [e + sg + d for e in "eE" for sg in ("", "+", "-") for d in _rust_digits("17", 2)]
+    fsufs = ("",) + RUST_FLOAT_SUFFIXES
+    for i in decs:
+        out.append(("float", "float_literal", i + ".", float(i.replace("_", ""))))   # `2.` (no suffix possible)
+        for f in decs:
+            for e in [""] + exps:
+                t = i + "." + f + e
+                if len(t) <= maxlen + 1:
+                    for suf in fsufs:
+                        out.append(("float", "float_literal", t + suf, float(t.replace("_", ""))))
+        for e in exps:
+            t = i + e
+            if len(t) <= maxlen:
+                for suf in fsufs:
+                    out.append(("float", "float_literal", t + suf, float(t.replace("_", ""))))
+    return out
+
+
+# ---- the genuine defects found by the enumeration (known findings), described by exact predicates on the literal text
+def js_known_defect(cls, text):
+    """-> (finding id, what the code is known to return) or None."""
+    if cls == "bigint":
+        return ("C02-ts-bigint-dropped", None)
+    if cls == "hex-integer" and ("e" in text.lower()):
+        return ("C02-ts-hex-e-dropped", None)
+    if cls == "legacy-octal" and text.strip("0") != "":
+        return ("C02-js-legacy-octal-dropped", None)
+    return None
+
+
+def rust_known_defect(cls, kind, text):
+    if cls == "hex-integer" and text.endswith(RUST_FLOAT_SUFFIXES):
+        rest = text[:-3].replace("_", "")
+        return ("C02-rust-hex-f32-suffix", int(rest, 16) if len(rest) > 2 else None)
+    if cls == "decimal-integer":
+        body = text
+        for suf in RUST_INT_SUFFIXES + RUST_FLOAT_SUFFIXES:
+            if body.endswith(suf):
+                body = body[: -len(suf)]
+                break
+        body = body.replace("_", "")
+        if len(body) > 1 and body[0] == "0" and body.strip("0") != "":
+            return ("C02-rust-leading-zero-dropped", None)
+    return None
+
+
+def _same_number(a, b):
+    return a is not None and b is not None and not isinstance(a, bool) and a == b
+
+
+@custom("c02-literal-parsing", props=["C02"])
+def literal_parsing_bounded(ctx):
+    import importlib
+    import os
+    import sys
+    import types
+    repo = ctx.get("repo") or os.environ.get("VERIF_REPO", "/repo")
+    if repo not in sys.path:
+        sys.path.insert(0, repo)
+    for m in [k for k in sys.modules if k == "src" or k.startswith("src.")]:
+        if not getattr(sys.modules[m], "__file__", "").startswith(os.path.abspath(repo)):
+            del sys.modules[m]
+    ts_mod = importlib.import_module("src.linters.magic_numbers.typescript_analyzer")
+    rs_mod = importlib.import_module("src.linters.magic_numbers.rust_analyzer")
+    ts, rs = ts_mod.TypeScriptMagicNumberAnalyzer(), rs_mod.RustMagicNumberAnalyzer()
+    maxlen = 5 if ctx.get("tier", "quick") == "quick" else 6
+    budget = f"all literals of the grammar up to {maxlen} characters over the digit alphabet dec={DEC!r} hex={HEXD!r}"
+    obs = []
+
+    def node(kind, text):
+        return types.SimpleNamespace(type=kind, text=text.encode(), children=[], parent=None, start_point=(0, 0))
+
+    def run(lang, target, cases, call, known):
+        """cases: (class, kind, text, ref). Per grammar class one PROPERTY-LEVEL obligation (code value == language
+        value); plus ONE finding-adjusted obligation per language: outside the recorded defect classes the value is
+        right, inside them the code does exactly what the finding says."""
+        per_cls, adjusted_bad, n_adj = {}, [], 0
+        for cls, kind, text, ref in cases:
+            try:
+                got = call(kind, text)
+            except BaseException as e:  # noqa
+                got = f"raised {type(e).__name__}"
+            ok = _same_number(got, ref)
+            st = per_cls.setdefault(cls, {"n": 0, "bad": []})
+            st["n"] += 1
+            if not ok and len(st["bad"]) < 5:
+                st["bad"].append({"literal": text, "language_value": ref, "code_value": got})
+            elif not ok:
+                st["more"] = st.get("more", 0) + 1
+            kd = known(cls, kind, text)
+            n_adj += 1
+            if kd is None:
+                if not ok and len(adjusted_bad) < 8:
+                    adjusted_bad.append({"literal": text, "language_value": ref, "code_value": got})
+            else:
+                expect = kd[1]
+                if not (got == expect and type(got) is type(expect)) and len(adjusted_bad) < 8:
+                    adjusted_bad.append({"literal": text, "finding": kd[0], "recorded_code_value": expect, "code_value": got})
+        for cls, st in sorted(per_cls.items()):
+            bad = st["bad"]
+            obs.append({"name": f"bounded:{target}/{cls}-value-is-language-value", "kind": "bounded",
+                        "verdict": "refuted" if bad else "passed", "tool": "exhaustive enumeration", "budget": budget,
+                        "cases": st["n"], "witness": bad[:5], "witness_confirmed": bool(bad),
+                        "note": (f"{lang} {cls}: {len(bad) + st.get('more', 0)} of {st['n']} literals get a wrong value "
+                                 f"(first: {bad[0]})" if bad else f"{lang} {cls}: all {st['n']} literals get the language's value")})
+        obs.append({"name": f"bounded:{target}/value-is-language-value-adjusted", "kind": "bounded",
+                    "verdict": "refuted" if adjusted_bad else "passed", "tool": "exhaustive enumeration", "budget": budget,
+                    "cases": n_adj, "witness": adjusted_bad, "witness_confirmed": bool(adjusted_bad),
+                    "note": (f"{lang}: deviation outside the recorded defect classes: {adjusted_bad[0]}" if adjusted_bad else
+                             f"{lang}: all {n_adj} literals get the language's value except exactly the recorded defect classes")})
+
+    run("JS/TS", "TypeScriptMagicNumberAnalyzer._extract_numeric_value",
+        [(c, "number", t, v) for c, t, v in js_literals(maxlen)],
+        lambda kind, text: ts._extract_numeric_value(node(kind, text)), lambda c, k, t: js_known_defect(c, t))
+    run("Rust", "RustMagicNumberAnalyzer._extract_numeric_value", rust_literals(maxlen),
+        lambda kind, text: rs._extract_numeric_value(node(kind, text)), rust_known_defect)
+
+    # _is_uppercase_constant: "UPPERCASE" = has a letter and every letter is upper case
+    import itertools
+    bad, n = [], 0
+    for ln in range(0, 6):
+        for t in itertools.product("aZbA_$19", repeat=ln):
+            name = "".join(t)
+            n += 1
+            want = any(c.isalpha() for c in name) and all(c.isupper() for c in name if c.isalpha())
+            got = ts._is_uppercase_constant(name)
+            if got != want and len(bad) < 5:
+                bad.append({"name": name, "expected": want, "code": got})
+    obs.append({"name": "bounded:TypeScriptMagicNumberAnalyzer._is_uppercase_constant/uppercase-iff-all-letters-upper",
+                "kind": "bounded", "verdict": "refuted" if bad else "passed", "tool": "exhaustive enumeration",
+                "budget": "all strings up to 5 characters over 'aZbA_$19'", "cases": n, "witness": bad,
+                "witness_confirmed": bool(bad), "note": f"{n} identifiers" + (f"; first deviation {bad[0]}" if bad else "")})
+    return obs
+
+
+# =================================================================== TS / Rust entry points
+from contracts.c01_ts_base import ts_root  # noqa: E402  (parse tree of a TS/JS source text; parser trusted, C01 file)
+from contracts.c17_rust_context import rust_root  # noqa: E402  (parse tree of a Rust source text; C17 file)
+
+
+def text_of(content):
+    return content if content is not None and len(content) > 0 else ""
+
+
+@contract(LI + "MagicNumberRule._check_typescript", props=["C02"], types=dict(self=RuleT, context=CtxT, config=ConfigT),
+          returns=SeqOf(ViolationT), inline=["__init__"])
+class CheckTypescript:
+    def requires(self, context, config):
+        return wf_rule(self)
+
+    def ensures_ignored_file_no_violations(self, context, config, result):
+        return implies(file_ignored(context.file_path, config.ignore), result == [])
+
+    def ensures_one_violation_per_reported_literal_of_the_file(self, context, config, result):
+        # (no tree -- tree-sitter unavailable -- gives no violations)
+        return result == [] or result == collect_ts(ts_walk(ts_root(text_of(context.file_content)), []), [],
+                                                    context.file_path, context.file_content, config.allowed_numbers)
+
+
+@contract(LI + "MagicNumberRule._check_rust", props=["C02"], types=dict(self=RuleT, context=CtxT, config=ConfigT),
+          returns=SeqOf(ViolationT), inline=["__init__"])
+class CheckRust:
+    def requires(self, context, config):
+        return wf_rule(self)
+
+    def ensures_ignored_file_no_violations(self, context, config, result):
+        return implies(file_ignored(context.file_path, config.ignore), result == [])
+
+    def ensures_one_violation_per_reported_literal_of_the_file(self, context, config, result):
+        return result == [] or result == collect_rust(rust_walk(rust_root(text_of(context.file_content)), []), [],
+                                                      context.file_path, context.file_content, config.allowed_numbers)
